@@ -306,7 +306,14 @@ def work(item):
     if parties is not None:
         dr = drop_rules(rules, vis)
         if dr.get("<start>") is not None:
-            refs.append(RefGrammar(dr))
+            try:
+                cand = RefGrammar(dr)
+                viable(cand, "")            # the reference matcher needs a productive grammar
+                refs.append(cand)
+            except Exception:
+                # removing the other parties' branch leaves a rule without a finite derivation (<s> ::= <A:B:m> <s> | <B:A:n> sliced to A):
+                # the two readings of slicing disagree about whether the language is empty; there is no reference to judge against
+                return {"fan": fan, "states": 0, "transitions": 0, "viol": [], "outcomes": 0, "not_judged": "removal reading is unproductive"}
     res = {"fan": fan, "states": 0, "transitions": 0, "viol": [], "outcomes": set()}
     try:
         spec = build(fan)
@@ -350,7 +357,14 @@ def work(item):
                 res["budget_skips"] = res.get("budget_skips", 0) + 1
                 continue
             except Exception as e:
-                res["viol"].append(dict(base, kind="predict_raises", error=f"{type(e).__name__}: {e}"[:200], sig=f"predict_raises:{type(e).__name__}"))
+                cyc = False
+                if parties is not None:
+                    try:
+                        cyc = any(families._derivation_cycle(letters_g, k) for k in letters_g.rules)
+                    except Exception:
+                        cyc = False
+                res["viol"].append(dict(base, kind="predict_raises", error=f"{type(e).__name__}: {e}"[:200], sliced_grammar_has_derivation_cycle=cyc,
+                                        sig=f"predict_raises:{type(e).__name__}:cycle={cyc}"))
                 continue
             got = set()
             options = []
